@@ -47,6 +47,19 @@ FSC_INVS = ["HistoryProbability", "Factorises", "AgentStateIsPosterior", "Action
             "TotalProbability", "ExploresPossibleHistories", "ValueEquation", "CutOnlyMattersWithGhosts",
             "InstancesWellFormed"]
 
+CFG_TINY = """INIT Init
+NEXT Next
+CHECK_DEADLOCK FALSE
+INVARIANT Emit
+INVARIANT TinyFactorises
+INVARIANT TinyAgentStateIsPosterior
+INVARIANT TinyActionDistNormalised
+INVARIANT TinyExploresPossibleHistories
+INVARIANT InstancesWellFormed
+"""
+TINY_INVS = ["TinyFactorises", "TinyAgentStateIsPosterior", "TinyActionDistNormalised",
+             "TinyExploresPossibleHistories", "InstancesWellFormed"]
+
 CFG_RUN = """INIT Init
 NEXT Next
 CHECK_DEADLOCK FALSE
@@ -70,9 +83,15 @@ PROPERTY Monotone
 # evaluator: one 64-bit LU solve of a system with <= 12 unknowns whose matrix I - g*T has condition number
 # <= (1+g)/(1-g) <= 19 and entries that are small dyadics / thirds / tenths: error ~1e-14 -> 1e-9 relative.
 TOL_V = 1e-9
-# controller object: P(a | history) is a chain of <= 4 products of <= 3 non-negative terms (no cancellation),
-# error <= ~20 ulp = 2e-15 -> 1e-12 absolute.
-TOL_P = 1e-12
+# controller object: the CONDITIONAL action distribution P(a | history) and the node posterior are chains of <= 4
+# products / sums of non-negative terms followed by one normalisation (no cancellation), so their RELATIVE error is
+# <= ~30 ulp = 4e-15 however unlikely the history is -> 1e-9 relative per entry; an entry that is exactly 0 (no node of
+# positive posterior weight can choose the action) must come out as 0 (products with exact zeros), floor 1e-200.
+TOL_REL = 1e-9
+ZERO_FLOOR = 1e-200
+TOL_P = 1e-12        # normalisation of a returned distribution (sum of <= 3 entries)
+# concrete values of the symbolic small parameter e of spec/C09_Tiny.tla
+EPS_VALUES = [F(1, 10 ** 9), F(1, 10 ** 12), F(1, 10 ** 5)]
 LIM = 2 ** 30 - 1
 SA = 4096            # agent-state quantisation of C09_Run
 SR = 1024            # reward quantisation of C09_Run
@@ -246,6 +265,76 @@ def make_cases(rng, n, tier, want, ctx=None):
     return cases
 
 
+def make_tiny_case(rng, tier):
+    """A small POMDP with a controller whose action rows (and sometimes initial node distribution) contain entries
+    t*e/QD with t in {1, 2, 4} and e a symbolic small parameter (spec/C09_Tiny.tla): 'rare' actions that only some
+    nodes can take, with different tiny weights, next to ordinary O(1) rows."""
+    NN = rng.choice([2, 2, 3])
+    K = rng.choice([2, 2, 3])
+    NO = rng.choice([1, 2, 2])
+    n_na = rng.choice([1, 2])
+    n_abs = rng.choice([0, 1])
+    if n_na + n_abs < 2:
+        n_na = 2
+    QD, ED, ND = rng.choice([1, 1, 2]), rng.choice([1, 2, 2]), rng.choice([1, 2, 2])
+    GN, GD = rng.choice([(1, 2), (9, 10)])
+    m = pb.rand_pomdp(rng, n_na=n_na, n_abs=n_abs, K=K, NO=NO, PD=2, OD=2, GN=GN, GD=GD, ghost=False,
+                      ID=2, obs_kind=rng.choice(["random", "random", "single"]), init_on_abs=0.0, sparse=0.4)
+    K, NO = m["K"], m["NO"]
+    m.update(rand_controller(rng, K, NO, NN, QD, ED, ND, by_action=rng.random() < 0.7))
+    psie = [[0] * K for _ in range(NN)]
+    rare = rng.randrange(K)
+    ts = [1, 4, 2]
+    rng.shuffle(ts)
+    for n in range(NN):
+        row = m["psi"][n]
+        if rng.random() < 0.75 and any(row[a] > 0 for a in range(K) if a != rare):
+            # node n takes the rare action with probability t*e/QD only: move its constant mass elsewhere
+            if row[rare] > 0:
+                dst = rng.choice([a for a in range(K) if a != rare])
+                row[dst] += row[rare]
+                row[rare] = 0
+            t = ts[n % 3] if rng.random() < 0.85 else 0
+            src = rng.choice([a for a in range(K) if row[a] > 0])
+            psie[n][rare] += t
+            psie[n][src] -= t
+        # other zero entries may be tiny as well
+        for a in range(K):
+            if a != rare and row[a] == 0 and psie[n][a] == 0 and rng.random() < 0.25:
+                t = rng.choice([1, 2, 4])
+                src = rng.choice([b for b in range(K) if row[b] > 0])
+                psie[n][a] += t
+                psie[n][src] -= t
+    iotae = [0] * NN
+    if rng.random() < 0.4:
+        zeros = [n for n in range(NN) if m["iota"][n] == 0]
+        if zeros:
+            n = rng.choice(zeros)
+            src = rng.choice([k for k in range(NN) if m["iota"][k] > 0])
+            t = rng.choice([1, 4])
+            iotae[n] += t
+            iotae[src] -= t
+    if not any(any(r) for r in psie) and not any(iotae):
+        return None
+    m.update(psie=psie, iotae=iotae, machs=["tiny"], full=0, open=0)
+    m["D"] = tree_depth(K * NO, 70 if tier == "quick" else 160)
+    rep = dict(labels=rng.choice(LABELS), alabels=rng.choice(LABELS), olabels=rng.choice(LABELS),
+               explicit_list=rng.random() < 0.5, dist=rng.choice(DISTS), odist=rng.choice(DISTS),
+               arr=rng.choice(["torch", "numpy"]), eta3=False, with_init=True)
+    listed = pb.listed_states(m, rep["explicit_list"])
+    m["lst"] = [1 if s in listed else 0 for s in range(m["N"])]
+    return {"m": m, "rep": rep}
+
+
+def make_tiny_cases(rng, n, tier):
+    out = []
+    while len(out) < n:
+        c = make_tiny_case(rng, tier)
+        if c is not None:
+            out.append(c)
+    return out
+
+
 # ==============================================================================================================
 # independent exact semantics (Fractions; shares nothing with msdm, numpy or the TLA+ text)
 # ==============================================================================================================
@@ -276,13 +365,23 @@ def py_value(m, cut):
     return V
 
 
-def py_history(m, h):
+def psi_frac(m, n, a, eps=None):
+    e = (m["psie"][n][a] * eps) if eps is not None else 0
+    return (F(m["psi"][n][a]) + e) / m["QD"]
+
+
+def iota_frac(m, n, eps=None):
+    e = (m["iotae"][n] * eps) if eps is not None else 0
+    return (F(m["iota"][n]) + e) / m["ND"]
+
+
+def py_history(m, h, eps=None):
     """Brute force over hidden node / state paths: (P(history), node posterior or None)."""
     N, NN = m["N"], m["NN"]
     w = {}
     for n in range(NN):
         for s in range(N):
-            p = F(m["iota"][n], m["ND"]) * F(m["p0"][s], m["ID"])
+            p = iota_frac(m, n, eps) * F(m["p0"][s], m["ID"])
             if p:
                 w[(n, s)] = p
     for (a, o) in h:
@@ -290,7 +389,7 @@ def py_history(m, h):
         for (n, s), p in w.items():
             if m["abs"][s]:
                 continue
-            pa = F(m["psi"][n][a], m["QD"])
+            pa = psi_frac(m, n, a, eps)
             if not pa:
                 continue
             for t in range(N):
@@ -306,6 +405,10 @@ def py_history(m, h):
     if not tot:
         return tot, None
     return tot, [sum(p for (n, s), p in w.items() if n == k) / tot for k in range(NN)]
+
+
+def peval(p, eps):
+    return sum(F(c) * eps ** i for i, c in enumerate(p))
 
 
 def rat(x):
@@ -341,6 +444,32 @@ def crosscheck_hist(idx, m, rec):
     exp = [sum(post[n] * F(m["psi"][n][a], m["QD"]) for n in range(m["NN"])) for a in range(m["K"])]
     if [F(x, r["actden"]) for x in r["actw"]] != exp:
         raise TLCFailure(f"case {idx}: TLA+ action mixture differs from brute force at {h}")
+
+
+def tiny_expectation(m, rec, eps):
+    """Exact (action distribution, node posterior, P(history)) at a concrete e from the polynomials TLC emitted."""
+    den = peval(rec["den"], eps)
+    tot = sum(peval(p, eps) for p in rec["agp"])
+    if den <= 0 or tot <= 0:
+        raise TLCFailure(f"tiny family: emitted normaliser is not positive at e={eps}")
+    exp = [peval(p, eps) / den for p in rec["actp"]]
+    post = [peval(p, eps) / tot for p in rec["agp"]]
+    if any(x < 0 for x in exp + post) or sum(exp) != 1:
+        raise TLCFailure(f"tiny family: emitted polynomials do not give distributions at e={eps}")
+    return exp, post
+
+
+def crosscheck_tiny(idx, m, r, eps):
+    h = [(e["a"] - 1, e["o"] - 1) for e in r["hist"]]
+    tot, post = py_history(m, h, eps)
+    exp_a, exp_post = tiny_expectation(m, r["rec"], eps)
+    CD = m["QD"] * m["PD"] * m["OD"] * m["ED"]
+    if peval(r["rec"]["ptrue"], eps) / (m["ND"] * m["ID"] * CD ** len(h)) != tot:
+        raise TLCFailure(f"tiny case {idx}: TLA+ history probability differs from brute force at {h}, e={eps}")
+    if post is None or exp_post != post:
+        raise TLCFailure(f"tiny case {idx}: TLA+ node posterior differs from brute force at {h}, e={eps}")
+    if exp_a != [sum(post[n] * psi_frac(m, n, a, eps) for n in range(m["NN"])) for a in range(m["K"])]:
+        raise TLCFailure(f"tiny case {idx}: TLA+ action mixture differs from brute force at {h}, e={eps}")
 
 
 # ==============================================================================================================
@@ -384,13 +513,12 @@ class World:
         self.opos = [self.B.oidx(lab) for lab in self.ol]        # msdm observation position -> abstract
         return None
 
-    def controller_arrays(self):
+    def controller_arrays(self, eps=None):
         m = self.m
-        A = np.array([[m["psi"][n][a] / m["QD"] for a in self.apos] for n in range(m["NN"])], dtype=float)
+        A = np.array([[float(psi_frac(m, n, a, eps)) for a in self.apos] for n in range(m["NN"])], dtype=float)
         E = np.array([[[[m["eta"][n][a][o][k] / m["ED"] for k in range(m["NN"])] for o in self.opos]
                        for a in self.apos] for n in range(m["NN"])], dtype=float)
-        I = np.array([m["iota"][n] / m["ND"] for n in range(m["NN"])], dtype=float)
-        # exact rows: divide so that float rows sum to 1 up to an ulp (thirds)
+        I = np.array([float(iota_frac(m, n, eps)) for n in range(m["NN"])], dtype=float)
         return A, E.reshape((m["NN"], len(self.apos), len(self.opos), m["NN"])), I
 
 
@@ -473,25 +601,36 @@ class Reporter:
         self.ctx.violation(sig, what[:700], {"kind": self.kind, "case": self.case, "detail": extra})
 
 
-def judge_hist(ctx, idx, case, recs, tamper=None):
-    """Replay the whole history tree of one case through a real StochasticFiniteStateController."""
+def rel_close(x, e):
+    """x (float from the real code) equals the exact rational e at TOL_REL relative; exact zeros must be zeros."""
+    e = float(e)
+    if e == 0.0:
+        return abs(x) <= ZERO_FLOOR
+    return abs(x - e) <= TOL_REL * abs(e)
+
+
+def judge_hist(ctx, idx, case, recs, tamper=None, eps=None):
+    """Replay the whole history tree of one case through a real StochasticFiniteStateController.
+
+    eps=None: records of C09_FSC (integer weights).  eps=Fraction: records of C09_Tiny (polynomials in e), evaluated
+    at that e.  At every node the CONDITIONAL action distribution and the agent state are compared relative to the
+    exact values (both are O(1) quantities however unlikely the history is)."""
     from msdm.core.pomdp.finitestatecontroller import StochasticFiniteStateController as SFSC
     m, rep = case["m"], case["rep"]
-    R = Reporter(ctx, "hist", case)
+    kind = "hist" if eps is None else "tiny"
+    R = Reporter(ctx, kind, case)
     W = World(case)
     if not W.ok:
         ctx.skip(W.why)
         return
     err = W.matrices()
     if err is not None:
-        if m["open"]:
-            ctx.skip("array builders not usable: absorbing successor outside the inferred state list")
-        else:
-            ctx.skip(f"array builders raised {type(err).__name__} (C06/C07's clause)")
+        ctx.skip(f"array builders raised {type(err).__name__} (C06/C07's clause)")
         return
-    A, E, I = W.controller_arrays()
+    A, E, I = W.controller_arrays(eps)
     B = W.B
     site = "StochasticFiniteStateController"
+    tag = "" if eps is None else f" [e={float(eps):g}]"
     ctx.evaluations += 1
     try:
         c = SFSC(W.p, as_kind(A, rep["arr"]), as_kind(E, rep["arr"]), as_kind(I, rep["arr"]))
@@ -503,67 +642,79 @@ def judge_hist(ctx, idx, case, recs, tamper=None):
         c = tamper(c)
     if () not in recs:
         raise TLCFailure(f"case {idx}: no root record")
-    K = m["K"]
+    K, NN = m["K"], m["NN"]
     real = {(): (ag0, 1.0)}
-    nodes = sorted(recs, key=len)
-    n_ok = 0
-    for h in nodes:
+    for h in sorted(recs, key=len):
         if h not in real:
             continue
         rec = recs[h]["rec"]
         rag, rpc = real[h]
         hist0 = [(a - 1, o - 1) for a, o in h]
-        exp = [F(x, rec["actden"]) for x in rec["actw"]]
-        if sum(exp) != 1:
-            raise TLCFailure(f"case {idx}: emitted action mixture does not sum to 1")
-        naive = [F(x, rec["nactden"]) for x in rec["nactw"]]
+        if eps is None:
+            exp = [F(x, rec["actden"]) for x in rec["actw"]]
+            post = [F(x, sum(rec["ag"])) for x in rec["ag"]]
+            if sum(exp) != 1:
+                raise TLCFailure(f"case {idx}: emitted action mixture does not sum to 1")
+            naive = [F(x, rec["nactden"]) for x in rec["nactw"]]
+        else:
+            exp, post = tiny_expectation(m, rec, eps)
+            naive = None
         node_ok = True
-        # ---- action_dist at this history
+        pe, pp = [str(x) for x in exp], [str(x) for x in post]
+        # ---- the agent state handed back by initial_agentstate / next_agentstate: the normalised node posterior
+        fn = "initial_agentstate" if not h else "next_agentstate"
+        try:
+            v = to_np(rag).reshape(-1)
+            tot = float(v.sum())
+            shape_ok = len(v) == NN and bool(np.all(np.isfinite(v))) and tot > 0
+        except Exception:                                            # noqa: BLE001
+            v, tot, shape_ok = None, 0.0, False
+        if not shape_ok:
+            node_ok = False
+            R.fail(f"C09:{site}.{fn}:node-posterior",
+                   f"agent state after history {hist0}{tag} is {None if v is None else v.tolist()}; node posterior {pp}",
+                   {"hist": hist0, "eps": str(eps)})
+        elif any(not rel_close(float(v[n]) / tot, post[n]) for n in range(NN)):
+            node_ok = False
+            R.fail(f"C09:{site}.{fn}:node-posterior",
+                   f"agent state after history (action, observation) {hist0}{tag} is {v.tolist()}; the distribution over "
+                   f"nodes given that history is {pp} = {[float(x) for x in post]}", {"hist": hist0, "eps": str(eps)})
+        elif not abs(tot - 1.0) <= 1e-9:
+            ctx.drift("agent-state-is-not-normalised", {"case": digest(case), "hist": hist0, "got": v.tolist()})
+        # ---- action_dist at this history: the conditional action distribution
         ctx.evaluations += 1
         try:
             ad = c.action_dist(rag)
             got = [float(ad.prob(B.alabel[a])) for a in range(K)]
             extra = [k for k in ad.support if k not in B.alabel and float(ad.prob(k)) != 0.0]
         except Exception as e:                                       # noqa: BLE001
-            R.fail(f"C09:{site}.action_dist:raised-{type(e).__name__}", f"action_dist raised {e!r} after history {hist0}")
+            R.fail(f"C09:{site}.action_dist:raised-{type(e).__name__}", f"action_dist raised {e!r} after history {hist0}{tag}")
             continue
-        if extra or any(not (x >= -TOL_P) for x in got) or not abs(sum(got) - 1.0) <= 10 * TOL_P:
+        if extra or any(not (x >= 0.0) for x in got) or not abs(sum(got) - 1.0) <= 10 * TOL_P:
             R.fail(f"C09:{site}.action_dist:not-a-distribution",
-                   f"action_dist after history {hist0} is {got} (+{extra})", {"hist": hist0})
+                   f"action_dist after history {hist0}{tag} is {got} (+{extra})", {"hist": hist0, "eps": str(eps)})
             node_ok = False
-        elif any(not abs(got[a] - float(exp[a])) <= TOL_P for a in range(K)):
+        elif any(not rel_close(got[a], exp[a]) for a in range(K)):
             node_ok = False
-            is_naive = all(abs(got[a] - float(naive[a])) <= TOL_P for a in range(K))
-            pe = [str(x) for x in exp]
-            if is_naive:
-                R.fail(f"C09:{site}.next_agentstate:unconditioned-on-action",
-                       f"after history (action, observation) {hist0} the controller object chooses actions with "
-                       f"probabilities {got}; the controller defines {pe}; the object's node weights were not "
-                       f"conditioned on the actions taken (they match the unconditioned update {[str(x) for x in naive]})",
-                       {"hist": hist0, "got": got, "exact": pe})
-            else:
-                R.fail(f"C09:{site}.action_dist:history-probability",
-                       f"after history (action, observation) {hist0} the controller object chooses actions with "
-                       f"probabilities {got}; the controller defines {pe}", {"hist": hist0, "got": got, "exact": pe})
-        # (the cumulative probability of the history needs no separate clause: by invariant AgentStateIsPosterior
-        #  pc is the product of the exact action probabilities along the path, each of which is compared here;
-        #  rpc, the product of the real ones, is carried along for the report)
-        # ---- agent state vs node posterior (implementation-shaped: DRIFT only)
-        try:
-            v = to_np(rag).reshape(-1)
-            tot = float(v.sum())
-            post = [x / sum(rec["ag"]) for x in rec["ag"]]
-            if node_ok and not R.failed and (len(v) != m["NN"] or not tot > 0
-                                             or any(abs(v[n] / tot - post[n]) > 1e-9 for n in range(m["NN"]))):
-                ctx.drift("agent-state-is-not-the-node-posterior",
-                          {"case": digest(case), "hist": hist0, "got": v.tolist(), "posterior": rec["ag"]})
-        except Exception:                                            # noqa: BLE001
-            pass
+            note = ""
+            if naive is not None and all(rel_close(got[a], naive[a]) for a in range(K)):
+                note = " (the numbers equal the mixture under node weights that were not conditioned on the actions taken)"
+            R.fail(f"C09:{site}.action_dist:conditional-action-probability",
+                   f"after history (action, observation) {hist0}{tag} the controller object chooses actions with "
+                   f"probabilities {got}; the controller defines {pe} = {[float(x) for x in exp]}{note}",
+                   {"hist": hist0, "got": got, "exact": pe, "eps": str(eps)})
+        # (the probability of the whole history needs no separate clause: by invariant AgentStateIsPosterior it is the
+        #  product of the exact conditional action probabilities along the path, each compared here, and of the world's
+        #  observation probabilities; rpc, the product of the real ones, is carried along for the samples)
         if node_ok:
-            n_ok += 1
             ctx.validated += 1
-            if len(h) >= 1 and (rec["ag"] != rec["agn"] or len([x for x in rec["ag"] if x]) >= 2):
-                ctx.nontrivial(digest([digest(m), "hist", list(h)]))
+            supp = len([x for x in post if x])
+            if eps is None:
+                if len(h) >= 1 and (rec["ag"] != rec["agn"] or supp >= 2):
+                    ctx.nontrivial(digest([digest(m), "hist", list(h)]))
+            elif len(h) >= 1 and supp >= 2 and rpc < 1e-4:
+                ctx.nontrivial(digest([digest(m), "tiny", str(eps), list(h)]))
+                ctx.count("tiny_nodes_after_an_unlikely_action")
         # ---- children
         for a in range(K):
             for o in range(m["NO"]):
@@ -575,15 +726,21 @@ def judge_hist(ctx, idx, case, recs, tamper=None):
                     nag = c.next_agentstate(rag, B.alabel[a], B.olabel[o])
                 except Exception as e:                               # noqa: BLE001
                     R.fail(f"C09:{site}.next_agentstate:raised-{type(e).__name__}",
-                           f"next_agentstate raised {e!r} after history {hist0} + {(a, o)}")
+                           f"next_agentstate raised {e!r} after history {hist0} + {(a, o)}{tag}")
                     continue
                 real[ck] = (nag, rpc * got[a])
-        if len(h) >= 2 and rec["ag"] != rec["agn"]:
-            ctx.sample({"pipeline": "A/hist", "instance": {k: m[k] for k in ("N", "K", "NO", "abs", "P", "O", "p0", "psi", "eta", "iota")},
-                        "rep": rep, "history": hist0, "exact_action_probabilities": [str(x) for x in exp],
-                        "real_action_probabilities": got, "P_history": str(rat(rec["ptrue"]))}, limit=2)
+        if len(h) >= 2 and supp_ge2(post) and (eps is not None or rec["ag"] != rec["agn"]):
+            ctx.sample({"pipeline": "A/" + kind, "e": None if eps is None else str(eps),
+                        "instance": {k: m[k] for k in ("N", "K", "NO", "abs", "P", "O", "p0", "psi", "eta", "iota") + (("psie", "iotae") if eps is not None else ())},
+                        "rep": rep, "history": hist0, "exact_action_probabilities": pe, "real_action_probabilities": got,
+                        "exact_node_posterior": pp, "controller_side_probability_of_history": rpc},
+                       limit=2 if eps is None else 4)
     if not R.failed:
-        ctx.count("hist_cases_fully_conformant")
+        ctx.count(f"{kind}_cases_fully_conformant")
+
+
+def supp_ge2(post):
+    return len([x for x in post if x]) >= 2
 
 
 def judge_value(ctx, idx, case, rec, tamper=None):
@@ -743,6 +900,37 @@ def judge_fsc_cases(ctx, cases, *, tamper_hist=None, tamper_value=None, mutate_r
     return res
 
 
+def judge_tiny_cases(ctx, cases, *, tamper_hist=None, eps_values=None, only_eps=None):
+    """Pipeline A for the tiny-probability family: TLC explores C09_Tiny symbolically (polynomials in e); the real
+    controller is replayed once per concrete e."""
+    batch = [c["m"] for c in cases]
+    res = run_tlc(ctx.workdir / "tiny", "C09_Tiny", CFG_TINY, files={"batch.json": batch},
+                  env={"BATCH_FILE": "batch.json"}, coverage=(ctx.tier == "thorough"))
+    ctx.add_tlc(res, "mc: controller-object machine on symbolic tiny probabilities (polynomials in e), every history")
+    bad = [v for v in res.violated if v in TINY_INVS]
+    if bad:
+        raise TLCFailure(f"design-level invariant violated in C09_Tiny: {sorted(set(bad))}\n"
+                         + (res.traces[0][:3000] if res.traces else ""))
+    per = {}
+    for r in res.records:
+        per.setdefault(r["iid"], {})[hkey(r)] = r
+    nx = 0
+    for i, c in enumerate(cases, start=1):
+        recs = per.get(i)
+        if not recs:
+            raise TLCFailure(f"no tiny records for case {i}")
+        for r in recs.values():
+            nx += 1
+            if nx % 5 == 0:
+                crosscheck_tiny(i, c["m"], r, EPS_VALUES[nx % len(EPS_VALUES)])
+                ctx.count("oracle_crosschecks_tiny")
+        for eps in (eps_values or EPS_VALUES):
+            if only_eps is not None and str(eps) != only_eps:
+                continue
+            judge_hist(ctx, i, c, recs, tamper=tamper_hist, eps=eps)
+    return res
+
+
 # ==============================================================================================================
 # pipeline B: run_on episodes
 # ==============================================================================================================
@@ -846,26 +1034,17 @@ def judge_run(ctx, cases, rng, per_case, tamper=None, mutate_data=None, fixed=No
         v = verdict[i]
         case = mt["case"]
         if v["bad"]:
-            if v["bad"].endswith(":unconditioned-on-action"):
-                sig = "C09:StochasticFiniteStateController.next_agentstate:unconditioned-on-action"
-                hh = [(s["a"] - 1, s["o"] - 1) for s in ep["steps"]]
-                if v["bad"].startswith("action-impossible"):
-                    what = (f"run_on produced the action/observation history {hh} whose probability under the controller "
-                            f"is 0: an action was drawn that no node of positive posterior weight can choose (the object's "
-                            f"node weights were not conditioned on the actions taken)")
-                else:
-                    what = (f"run_on, history {hh}: at some step the action was drawn from a distribution that is not the "
-                            f"controller's action mixture given the history so far; it is the mixture under node weights "
-                            f"that were not conditioned on the actions taken (C09_Run conjunct {v['bad']})")
-            else:
-                sig = f"C09:POMDPPolicy.run_on:{v['bad']}"
-                what = f"episode rejected by C09_Run at conjunct {v['bad']}: {ep}"
+            sig = f"C09:POMDPPolicy.run_on:{v['bad']}"
+            what = (f"episode rejected by C09_Run at conjunct {v['bad']} (history "
+                    f"{[(s['a'] - 1, s['o'] - 1) for s in ep['steps']]}): {ep}")
             ctx.violation(sig, what[:700], {"kind": "run", "case": case, "cfg": mt["cfg"], "episode": ep})
             continue
         if v["agv"] != "ok":
-            ctx.count(f"run_on_agent_states_not_posterior_{v['agv']}")
-            if v["agv"] == "other":
-                ctx.drift("run_on-agent-state-is-not-the-node-posterior", {"case": digest(case), "episode": ep})
+            # the agent states logged along the episode are not the node posteriors given the history so far
+            ctx.violation("C09:StochasticFiniteStateController.next_agentstate:node-posterior",
+                          (f"run_on: an agent state logged along the episode is not the distribution over nodes given the "
+                           f"history so far (C09_Run classification: {v['agv']}): {ep}")[:700],
+                          {"kind": "run", "case": case, "cfg": mt["cfg"], "episode": ep})
             continue
         ctx.validated += 1
         if mt["len"] >= 2 or (mt["len"] >= 1 and case["m"]["abs"][ep["last"]["s"] - 1]):
@@ -1073,16 +1252,22 @@ def run(ctx):
     ctx.rule = ("random tabular POMDPs (2-4 states incl. 0-2 explicitly absorbing ones with or without outgoing 'ghost' dynamics, "
                 "1-3 actions, 1-3 observations, denominators 1-4, discount in {1/3,1/2,3/4,9/10}) x random stochastic controllers "
                 "(1-3 nodes, row-stochastic strategies with zero entries, action-dependent or -independent node strategies, "
-                "non-degenerate initial node distributions) x label kinds x distribution kinds x tensor kinds. non-trivial = "
+                "non-degenerate initial node distributions) x label kinds x distribution kinds x tensor kinds; plus a tiny-probability "
+                "family (2-3 nodes, action rows / initial node weights with entries t*e/QD, t in {1,2,4}, e symbolic in TLC and "
+                "1e-5, 1e-9, 1e-12 in the replay). non-trivial = "
                 "(hist) a history of length >= 1 after which the node posterior has >= 2 supported nodes or differs from the "
-                "unconditioned update; (value) >= 2 unknowns and >= 2 distinct exact values; (run) an episode with >= 2 steps or one "
+                "unconditioned update; (tiny) a history whose controller-side probability is < 1e-4 and after which >= 2 nodes "
+                "have positive posterior weight; (value) >= 2 unknowns and >= 2 distinct exact values; (run) an episode with >= 2 steps or one "
                 "that ends in an absorbing state; (learn) a bounded-policy-iteration run with an improving iteration or a "
                 "gradient run with >= 1 iteration and >= 2 nodes; keyed by (instance, pipeline, history / configuration)")
     ctx.assumptions = [
         "TLC evaluates the TLA+ oracles correctly (every value table and every 7th emitted history state are recomputed by an "
         "independent Fraction implementation: Gaussian elimination / brute force over hidden paths)",
         "absorbing = is_absorbing(s) (the rule POMDPPolicy.run_on applies); zero-reward self-loop states are ordinary states worth 0",
-        "evaluator outputs are compared at 1e-9 relative, action probabilities along histories at 1e-12 absolute (derivations in the driver)",
+        "evaluator outputs are compared at 1e-9 relative; conditional action distributions and agent states (normalised node "
+        "posteriors) at every history node at 1e-9 relative per entry, exact zeros as zeros (derivations in the driver)",
+        "tiny probabilities are multiples of a symbolic e in TLC (identities in e); the harness evaluates the emitted polynomials "
+        "exactly at e = 1e-5, 1e-9, 1e-12",
         "exact values are computed for controllers x POMDPs whose Cramer determinants fit 30-bit integers (<= 6 unknowns, mostly <= 4); "
         "others are skipped and counted",
         "learner traces are quantised at 2^-20; the independent float evaluator used for them is validated against the TLA+ oracle on every value case",
@@ -1094,6 +1279,9 @@ def run(ctx):
     chunk = 200 if quick else 250
     for k in range(0, len(cases), chunk):
         judge_fsc_cases(ctx, cases[k:k + chunk])
+    tiny = make_tiny_cases(rng, 60 if quick else 250, ctx.tier)
+    for k in range(0, len(tiny), 125):
+        judge_tiny_cases(ctx, tiny[k:k + 125])
     hist_cases = [c for c in cases if "hist" in c["m"]["machs"]]
     judge_run(ctx, hist_cases[: (160 if quick else 500)], rng, per_case=4 if quick else 8)
     n_learn = 300 if quick else 1800
@@ -1109,6 +1297,8 @@ def replay(ctx, case):
     c = case["case"]
     if kind in ("hist", "value"):
         judge_fsc_cases(ctx, [c], xcheck_every=1, only=kind)
+    elif kind == "tiny":
+        judge_tiny_cases(ctx, [c], only_eps=(case.get("detail") or {}).get("eps"))
     elif kind == "run":
         judge_run(ctx, [c], None, per_case=1, fixed=case["cfg"])
     elif kind == "learn":
@@ -1145,7 +1335,7 @@ def selftest(ctx):
     hc = [c for c in cases if "hist" in c["m"]["machs"] and c["m"]["K"] >= 2
           and any(r != r[::-1] for r in c["m"]["psi"])][:4]
     judge_fsc_cases(ctx, hc, tamper_hist=th)
-    ok &= any("action_dist:history-probability" in v[0] for v in ctx.violations[before:])
+    ok &= any("action_dist:conditional-action-probability" in v[0] for v in ctx.violations[before:])
 
     # (3) one expected value emitted by TLC swapped
     def mutate(per):
